@@ -32,6 +32,7 @@ type SpecCtx struct {
 	clause   string
 	noState  bool // axioms / pure functions: no heap access allowed
 	heapVars map[string]*Term // pure functions with explicit heap parameters
+	fuelVar  string           // inside the body of a recursive pure function
 }
 
 func (x *Exec) newSpecCtx(st *State, f *Frame, fn *ssa.Function) *SpecCtx {
@@ -198,6 +199,23 @@ func (x *Exec) sortOfTypeString(pkgPath, s string) (string, types.Type) {
 	if strings.HasPrefix(s, "set[") && strings.HasSuffix(s, "]") {
 		ks, _ := x.sortOfTypeString(pkgPath, s[4:len(s)-1])
 		return "(Array " + ks + " Bool)", nil
+	}
+	if strings.HasPrefix(s, "array[") {
+		// array[K]V
+		depth := 0
+		for i := 5; i < len(s); i++ {
+			if s[i] == '[' {
+				depth++
+			}
+			if s[i] == ']' {
+				depth--
+				if depth == 0 {
+					ks, _ := x.sortOfTypeString(pkgPath, s[6:i])
+					vs, _ := x.sortOfTypeString(pkgPath, s[i+1:])
+					return "(Array " + ks + " " + vs + ")", nil
+				}
+			}
+		}
 	}
 	if strings.HasPrefix(s, "heap[") && strings.HasSuffix(s, "]") {
 		n := s[5 : len(s)-1]
@@ -677,6 +695,89 @@ func (c *SpecCtx) field(b *Term, name string) *Term {
 	return nil
 }
 
+func (c *SpecCtx) fieldArrayName(obj *Term, field string) string {
+	x := c.x
+	if obj.T != nil {
+		if pt, ok := obj.T.Underlying().(*types.Pointer); ok {
+			if si := x.structOf(pt.Elem()); si != nil {
+				for i, f := range si.Fields {
+					if f.Name == field {
+						n, _ := x.reg.FieldArray(si, i)
+						return n
+					}
+				}
+			}
+		}
+	}
+	c.fail("no heap field %s on %v", field, obj.T)
+	return ""
+}
+
+// frame(x.f): every other object's field f is as in the pre-state.   unchanged(x.f): the whole field array is.
+// frame(m[k]): every other (map,key) entry of that map type is as in the pre-state.  unchanged(m): the map heap of that type is.
+// frame(deref(p)) / unchanged(deref(p)) likewise for boxed values.
+func (c *SpecCtx) frameClause(e *Expr, whole bool) *Term {
+	x := c.x
+	if len(e.Args) != 1 {
+		c.fail("frame/unchanged take one argument")
+	}
+	a := e.Args[0]
+	cur := func(n string) *Term { save := c.inOld; c.inOld = false; t := c.heapArr(n); c.inOld = save; return t }
+	old := func(n string) *Term { save := c.inOld; c.inOld = true; t := c.heapArr(n); c.inOld = save; return t }
+	isMapExpr := false
+	if a.Op == "field" {
+		if t := c.tr(a, false); t.T != nil {
+			_, isMapExpr = t.T.Underlying().(*types.Map)
+		}
+	}
+	switch {
+	case a.Op == "field" && !isMapExpr:
+		obj := c.tr(a.Args[0], false)
+		n := c.fieldArrayName(obj, a.Name)
+		es := x.reg.heap[n][1]
+		if whole {
+			return Eq(cur(n), old(n))
+		}
+		return Eq(cur(n), sto(old(n), obj, sel(cur(n), obj, es)))
+	case a.Op == "call" && a.Name == "deref":
+		p := c.tr(a.Args[0], false)
+		pt, ok := p.T.Underlying().(*types.Pointer)
+		if !ok {
+			c.fail("frame(deref(p)): p is not a pointer")
+		}
+		sort := x.reg.SortOf(pt.Elem())
+		n := x.reg.BoxArray(sort)
+		if whole {
+			return Eq(cur(n), old(n))
+		}
+		return Eq(cur(n), sto(old(n), p, sel(cur(n), p, sort)))
+	default:
+		var m, k *Term
+		if a.Op == "index" {
+			m = c.tr(a.Args[0], false)
+			k = c.tr(a.Args[1], false)
+		} else {
+			m = c.tr(a, false)
+		}
+		if m.T == nil {
+			c.fail("frame: untyped map expression")
+		}
+		mt, ok := m.T.Underlying().(*types.Map)
+		if !ok {
+			c.fail("frame/unchanged: expected x.f, m[k], a map or deref(p)")
+		}
+		ks, es := x.reg.SortOf(mt.Key()), x.reg.SortOf(mt.Elem())
+		dn, vn := x.reg.MapArrays(ks, es)
+		ds, vs := x.reg.heap[dn][1], x.reg.heap[vn][1]
+		if whole || k == nil {
+			return And(Eq(cur(dn), old(dn)), Eq(cur(vn), old(vn)))
+		}
+		nd := sto(old(dn), m, sto(sel(old(dn), m, ds), k, sel(sel(cur(dn), m, ds), k, "Bool")))
+		nv := sto(old(vn), m, sto(sel(old(vn), m, vs), k, sel(sel(cur(vn), m, vs), k, es)))
+		return And(Eq(cur(dn), nd), Eq(cur(vn), nv))
+	}
+}
+
 // deref: *p for pointers to non-struct values
 func (c *SpecCtx) deref(p *Term) *Term {
 	x := c.x
@@ -782,6 +883,7 @@ func (c *SpecCtx) bin(e *Expr, pos bool) *Term {
 }
 
 type specSig struct {
+	rec    bool
 	name   string
 	params []specParam
 	ret    string
@@ -811,6 +913,13 @@ func (c *SpecCtx) callSpec(sf *specSig, args []*Term) *Term {
 	}
 	for _, h := range sf.heaps {
 		all = append(all, c.heapArr(h))
+	}
+	if sf.rec {
+		fuel := "(FS (FS FZ))"
+		if c.fuelVar != "" {
+			fuel = c.fuelVar
+		}
+		all = append([]*Term{mk("Fuel", fuel)}, all...)
 	}
 	r := App(sf.ret, sf.name, all...)
 	r.T = sf.retT
@@ -920,6 +1029,40 @@ func (c *SpecCtx) call(e *Expr, pos bool) *Term {
 			}
 		}
 		c.fail("iterpos outside a string range loop")
+	case "store":
+		a := arg(0)
+		if !strings.HasPrefix(a.Sort, "(Array ") {
+			c.fail("store: first argument must be an array, got %s", a.Sort)
+		}
+		return mk(a.Sort, sto(a, arg(1), arg(2)).S)
+	case "domOf", "valOf":
+		m := arg(0)
+		if m.T == nil {
+			c.fail("%s: untyped map", name)
+		}
+		mt, ok := m.T.Underlying().(*types.Map)
+		if !ok {
+			c.fail("%s: not a map", name)
+		}
+		ks, es := x.reg.SortOf(mt.Key()), x.reg.SortOf(mt.Elem())
+		dn, vn := x.reg.MapArrays(ks, es)
+		if name == "domOf" {
+			ds := x.reg.heap[dn][1]
+			return mk(ds, sel(c.heapArr(dn), m, ds).S)
+		}
+		vs := x.reg.heap[vn][1]
+		return mk(vs, sel(c.heapArr(vn), m, vs).S)
+	case "fieldHeap":
+		// fieldHeap(p.f): the whole heap array of field f (current or old version)
+		fe := e.Args[0]
+		if fe.Op != "field" {
+			c.fail("fieldHeap expects obj.field")
+		}
+		obj := c.tr(fe.Args[0], false)
+		arr := c.fieldArrayName(obj, fe.Name)
+		return mk(x.reg.HeapSort(arr), c.heapArr(arr).S)
+	case "frame", "unchanged":
+		return c.frameClause(e, name == "unchanged")
 	case "heapOf":
 		// heapOf("H_x"): the current (or old) version of a heap array, for passing to pure functions
 		return c.heapArr(strArg(0))
@@ -981,7 +1124,7 @@ func (x *Exec) hasPrefix(s, p *Term, pe *Expr) *Term {
 func (x *Exec) registerSpecs() error {
 	// signatures first (so that bodies may refer to each other)
 	for _, sf := range x.cs.Specs {
-		sig := &specSig{name: sf.Name, pkg: sf.PkgPath}
+		sig := &specSig{name: sf.Name, pkg: sf.PkgPath, rec: sf.Rec}
 		err := catchSpec(func() {
 			for _, p := range sf.Params {
 				s, t := x.sortOfTypeString(sf.PkgPath, p.Type)
@@ -1012,6 +1155,9 @@ func (x *Exec) registerSpecs() error {
 				ctx.pkgPath = sf.PkgPath
 				ctx.noState = true
 				ctx.clause = "pure func " + sf.Name
+				if sf.Rec {
+					ctx.fuelVar = "fuel_n"
+				}
 				for i, p := range sig.params {
 					ctx.vars[p.name] = mkT(p.sort, parNames[i], p.T)
 				}
